@@ -375,6 +375,17 @@ func c08Strata() []*gast.Grammar {
 			r("E1", gast.C(act(gast.S(gast.Lab("a", gast.Ref("E1")), gast.L("+"), gast.Lab("b", gast.Ref("E2"))), 1, mon.Spec{}), gast.Ref("E2"))),
 			r("E2", gast.C(act(gast.S(gast.Lab("a", gast.Ref("E2")), gast.L("*"), gast.Lab("b", gast.Ref("At"))), 2, mon.Spec{}), gast.Ref("At"))),
 			r("At", gast.C(act(gast.Plus(gast.Cl(&gast.ClassSpec{Ranges: [][2]rune{{'0', '9'}}})), 3, mon.Spec{R: 2}), gast.S(gast.L("("), gast.Ref("E1"), gast.L(")"))))),
+		// a left-recursive rule called again exactly where its previous match ended (juxtaposition,
+		// tokens that swallow their trailing blanks), below another left-recursive rule
+		mk(r("S", gast.S(gast.Ref("Lst"), gast.NotE(gast.Dot()))),
+			r("Lst", gast.C(act(gast.S(gast.Lab("a", gast.Ref("Lst")), gast.Lab("b", gast.Ref("E1"))), 1, mon.Spec{}), gast.Ref("E1"))),
+			r("E1", gast.C(act(gast.S(gast.Lab("a", gast.Ref("E1")), gast.L("+"), gast.Lab("b", gast.Ref("At"))), 2, mon.Spec{}), gast.Ref("At"))),
+			r("At", gast.C(act(gast.S(gast.Plus(gast.Cl(&gast.ClassSpec{Ranges: [][2]rune{{'0', '9'}}})), gast.Star(gast.L(" "))), 3, mon.Spec{R: 2}), gast.S(gast.L("("), gast.Ref("E1"), gast.L(")"))))),
+		// a left-recursive rule evaluated under a lookahead, where it has to grow
+		mk(r("S", gast.C(act(gast.S(gast.AndE(gast.S(gast.Ref("E1"), gast.L("="))), gast.Lab("a", gast.Ref("E1")), gast.L("="), gast.Lab("b", gast.Ref("E1"))), 1, mon.Spec{}),
+			gast.S(gast.NotE(gast.S(gast.Ref("E1"), gast.L(";"))), gast.Lab("a", gast.Ref("E1")), gast.Star(gast.Dot())), gast.S(gast.Ref("E1"), gast.L(";")))),
+			r("E1", gast.C(act(gast.S(gast.Lab("a", gast.Ref("E1")), gast.L("+"), gast.Lab("b", gast.Ref("At"))), 2, mon.Spec{}), gast.Ref("At"))),
+			r("At", act(gast.Plus(gast.Cl(&gast.ClassSpec{Ranges: [][2]rune{{'0', '9'}}})), 3, mon.Spec{R: 2}))),
 	}
 }
 
